@@ -47,11 +47,11 @@ def jFace (f : Face) : Json :=
 def asSym (j : Json) : R Sym := do
   let fr ← getArr j "frees"
   pure { pos := ← asFace (← j.getObjVal? "pos"), neg := ← asFace (← j.getObjVal? "neg"),
-         meas := getNatListD j "meas", frees := ← fr.mapM (·.getStr?) }
+         meas := getNatListD j "meas", frees := ← fr.mapM (·.getStr?), val := ← getOpt j "val" asSc }
 
 def jSym (e : Sym) : Json :=
   Json.mkObj [("pos", jFace e.pos), ("neg", jFace e.neg), ("meas", natList e.meas),
-    ("frees", jarr (e.frees.map Json.str))]
+    ("frees", jarr (e.frees.map Json.str)), ("val", optJ jSc e.val)]
 
 def asVal (j : Json) : R Val :=
   match j.getObjVal? "sc" with
@@ -116,13 +116,13 @@ def asProg (j : Json) : R Prog := do
   let cs ← getArr j "cmds"
   pure { name := ← getStr j "name", n := ← getNat j "n", target := ← getOpt j "target" (·.getStr?),
          shots := ← getOpt j "shots" (·.getNat?), cutoff := ← getOpt j "cutoff" (·.getNat?),
-         tdm := ← getOpt j "tdm" asTdm, cmds := ← cs.mapM asCmd }
+         tdm := ← getOpt j "tdm" asTdm, extra := ← getKw j "extra", cmds := ← cs.mapM asCmd }
 
 def jProg (p : Prog) : Json :=
   Json.mkObj [("name", Json.str p.name), ("n", jnat p.n), ("target", optJ Json.str p.target),
     ("shots", optJ jnat p.shots), ("cutoff", optJ jnat p.cutoff),
     ("tdm", optJ (fun t => Json.mkObj [("N", natList t.N), ("params", jScRows t.params)]) p.tdm),
-    ("cmds", jarr (p.cmds.map jCmd))]
+    ("extra", jKw p.extra), ("cmds", jarr (p.cmds.map jCmd))]
 
 def asBBOp (j : Json) : R BBOp := do
   pure { op := ← getStr j "op", modes := getNatListD j "modes", args := ← getVals j "args",
@@ -138,12 +138,12 @@ def asBB (j : Json) : R BB := do
          shots := ← getOpt j "shots" (·.getNat?), cutoff := ← getOpt j "cutoff" (·.getNat?),
          tdm := ← getOpt j "tdm" (·.getNat?),
          vars := ← (match j.getObjVal? "vars" with | .ok v => asScRows v | .error _ => pure []),
-         ops := ← os.mapM asBBOp }
+         extra := ← getKw j "extra", ops := ← os.mapM asBBOp }
 
 def jBB (b : BB) : Json :=
   Json.mkObj [("name", Json.str b.name), ("modes", natList b.modes), ("target", optJ Json.str b.target),
     ("shots", optJ jnat b.shots), ("cutoff", optJ jnat b.cutoff), ("tdm", optJ jnat b.tdm),
-    ("vars", jScRows b.vars), ("ops", jarr (b.ops.map jBBOp))]
+    ("vars", jScRows b.vars), ("extra", jKw b.extra), ("ops", jarr (b.ops.map jBBOp))]
 
 def asXStmt (j : Json) : R XStmt := do
   let params ← match j.getObjVal? "kw" with
@@ -182,6 +182,16 @@ def res (f : α → Json) : Except Err α → Json
   | .ok a => Json.mkObj [("ok", f a)]
   | .error e => Json.mkObj [("err", Json.str (errStr e))]
 
+/-- the parse table `P` of a request: `"parse": [[string, Sym], …]` -/
+def getParse (j : Json) : R (String → Option Sym) := do
+  let tbl ← match j.getObjVal? "parse" with
+    | .ok (Json.arr a) => a.toList.mapM fun x => do
+        match (← x.getArr?).toList with
+        | [k, v] => do pure ((← k.getStr?), (← asSym v))
+        | _ => throw "parse entry"
+    | _ => pure []
+  pure fun s => (tbl.find? (·.1 = s)).map (·.2)
+
 def handler (op : String) (j : Json) : Option (R Json) :=
   match op with
   | "io.toBB" => some do
@@ -192,13 +202,13 @@ def handler (op : String) (j : Json) : Option (R Json) :=
     pure (jBB (reparseBB b))
   | "io.fromBB" => some do
     let b ← asBB (← j.getObjVal? "bb")
-    pure (res jProg (toProgramBB b))
+    pure (res jProg (toProgramBB (← getParse j) b))
   | "io.toXIR" => some do
     let p ← asProg (← j.getObjVal? "prog")
     pure (jXIR (toXIR p))
   | "io.fromXIR" => some do
     let x ← asXIR (← j.getObjVal? "xir")
-    pure (res jProg (toProgramXIR x))
+    pure (res jProg (toProgramXIR (← getParse j) x))
   | "io.piString" => some do
     let m ← getInt j "m"
     pure (Json.str (piString m))
